@@ -2,6 +2,7 @@
 package c16
 
 import (
+	"github.com/multiformats/go-multicodec"
 	"crypto/ecdsa"
 	"math/big"
 
@@ -301,6 +302,15 @@ func TestGenerated(t *testing.T) {
 		{"p384", func() (crypto.PrivKey, did.DID, error) { return did.GenerateECDSAWithCurve(did.P384) }},
 		{"p521", func() (crypto.PrivKey, did.DID, error) { return did.GenerateECDSAWithCurve(did.P521) }},
 	}
+	// the curve-parameterised generator with EVERY multicodec constant the package exports (and some it does not):
+	// whatever it hands back without error is "a key of an algorithm the package can generate"
+	optional := map[string]bool{}
+	for _, code := range []multicodec.Code{did.P256, did.Secp256k1, did.Ed25519, did.RSA, did.X25519, 0, 0x1203, 0xe8} {
+		code := code
+		name := fmt.Sprintf("ecdsa-with-curve-0x%x", uint64(code))
+		optional[name] = true
+		gens = append(gens, gen{name, func() (crypto.PrivKey, did.DID, error) { return did.GenerateECDSAWithCurve(code) }})
+	}
 	reps := h.N(3, 25)
 	if h.Thorough() {
 		gens = append(gens, gen{"rsa", did.GenerateRSA})
@@ -314,9 +324,19 @@ func TestGenerated(t *testing.T) {
 			priv, d, err := g.f()
 			P.Eval()
 			ctx := &h.Ctx{P: P, T: t}
+			if optional[g.name] && (err != nil || priv == nil) {
+				P.Class("generator-refuses:" + g.name)
+				continue
+			}
 			if err != nil || priv == nil {
 				ctx.Fail("C16/generate/"+g.name, "generator failed: %v", err)
 				continue
+			}
+			if d3, err := did.FromPrivKey(priv); err != nil || d3 != d {
+				ctx.Fail("C16/roundtrip/fromprivkey-differs/"+g.name, "generator %s returned DID %s, FromPrivKey of the key it returned gives %s (%v)", g.name, d, d3, err)
+			}
+			if d4, err := did.FromPubKey(priv.GetPublic()); err != nil || d4 != d {
+				ctx.Fail("C16/roundtrip/frompubkey-differs/"+g.name, "generator %s returned DID %s, FromPubKey of the key it returned gives %s (%v)", g.name, d, d4, err)
 			}
 			d2, err := did.Parse(d.String())
 			if err != nil || d2 != d {
